@@ -87,4 +87,18 @@ theorem hydrogens_fresh_false : ¬ HydrogensFresh := by
   revert this
   decide +kernel
 
+def ethanolEthane : Mol :=
+  ⟨[(1, { z := 6 }), (2, { z := 6 }), (3, { z := 8 }), (4, { z := 6 }), (5, { z := 6 })],
+   [(1, [(2, { order := 1 })]), (2, [(1, { order := 1 }), (3, { order := 1 })]), (3, [(2, { order := 1 })]),
+    (4, [(5, { order := 1 })]), (5, [(4, { order := 1 })])]⟩
+
+/-- second witness (known finding `public-fix_structure+attr-write+edit-in-txn`, found while proving the partial theorem):
+an atom added inside the block, a public `fix_structure()`, a direct charge write on the new atom, an edit elsewhere — the new
+atom is not in the snapshot, so the exit never adds it to the pending set -/
+theorem hydrogens_fresh_false_new_atom :
+    (runHist current (freshWorld ethanolEthane)
+      [(.enter 0, []), (.addAtom 0 7 none false, []), (.fixStructure 0 true, []), (.setCharge 0 6 1, []),
+       (.addBond 0 4 1 1 false, []), (.exitOk 0, [])]).objs.map (fun o => (o.backup == some none, hStale o.toCore)) = [(true, [6])] := by
+  decide +kernel
+
 end ChythonModel.Findings.C13
